@@ -30,7 +30,7 @@ def main(tier, seed):
     r = Rng(seed)
     try:
         n = 300 if tier == "quick" else 6000
-        of, dis = c01.run_histories(rep, sess, r, ksgen.COLL_VOCAB, n, findings, "c03")
+        of, dis = c01.run_histories(rep, sess, r, ksgen.COLL_VOCAB, n, findings, "c03", corpus=ksgen.coll_corpus())
         c01.verdict(rep, ok, log, errs, of, dis, findings, sess, "C03")
     finally:
         sess.close()
